@@ -16,7 +16,7 @@ pub const NW: usize = 3;
 const NAU: usize = NA as usize;
 pub type Reg = MVReg<u8, u8>;
 
-#[derive(Clone)]
+#[derive(Clone, Debug)]
 pub struct Uni {
     pub act: [u8; NW],
     pub val: [u8; NW],
@@ -60,6 +60,7 @@ pub fn any_uni(i: &mut In) -> Uni {
         }
         j += 1;
     }
+    vtrace!("universe {:?}", u);
     u
 }
 
